@@ -97,7 +97,7 @@ package shovel
 //@   commit#2 @C01,C02 [rows] forall m uint64 :: W_rows[m] == D_rows[m] + ((localNum < m && m <= localNum + uint64(len(blocks))) ? 1 : 0)
 //@   commit#2 @C01,C03 [hash] W_hash[localNum + uint64(len(blocks))] == hashof(blocks[len(blocks)-1].Header.Hash)
 //@   ensures [inv] notAbove(D_cur, D_rows) && atMostOnce(D_rows) && inRange(D_cur, task.start, task.stop)
-//@   ensures @C06 [done] iserr(result, ErrDone) ==> task.stop > 0 && D_cur == old(D_cur) && D_rows == old(D_rows)
+//@   ensures @C06 [done] result == ErrDone ==> task.stop > 0 && D_cur == old(D_cur) && D_rows == old(D_rows)
 //@   ensures @C02 [error-keeps-inv] result != nil ==> nCommits <= 1
 //@   loop#0 invariant txOpen
 //@   loop#0 invariant [w-in-range] inRange(W_cur, task.start, task.stop)
